@@ -303,6 +303,9 @@ func (ex *Exec) applyContract(st *State, i *ssa.Call, f *ssa.Function, fc *FuncC
 	oldEnv := &Env{ex: ex, st: pre, vars: vars, lets: letMap(fc)}
 	// requires
 	for n, c := range fc.Requires {
+		if !ex.clauseActive(c) {
+			continue
+		}
 		env := &Env{ex: ex, st: st, vars: vars, lets: letMap(fc), prove: true}
 		var hs []*Term
 		var qs []*QFact
@@ -349,7 +352,7 @@ func (ex *Exec) applyContract(st *State, i *ssa.Call, f *ssa.Function, fc *FuncC
 	}
 	// ensures
 	for _, c := range append(append([]*Clause{}, fc.Ensures...), fc.Defines...) {
-		if c.Mode != "" && c.Mode != ex.mode {
+		if !ex.clauseActive(c) {
 			continue
 		}
 		env := &Env{ex: ex, st: st, vars: resVars, lets: letMap(fc), old: oldEnv}
@@ -444,5 +447,18 @@ func init() {
 	externs["fmt.Sprintf"] = func(ex *Exec, st *State, i *ssa.Call, args []Value) Value {
 		ex.allocEvent(st, "fmt.Sprintf", I64(64), i.Pos())
 		return ex.freshValue(st, "sprintf", i.Type(), "fresh")
+	}
+}
+
+// clauseActive: clauses tagged @sim belong to the spec-simulation proofs, @hostile/@wellbehaved
+// to the handler mode; untagged clauses are always active.
+func (ex *Exec) clauseActive(c *Clause) bool {
+	switch c.Mode {
+	case "":
+		return true
+	case "sim":
+		return ex.simVariant != ""
+	default:
+		return c.Mode == ex.mode
 	}
 }
